@@ -15,7 +15,9 @@ RULE = ("stateless schedule exploration of the real threads {transport reader, r
         "request, application answer, request with a Grouped AVP, DWR}; segmentations = every 1-cut of the "
         "concatenated encoding at byte granularity at d = 0, structural cuts {1, 4, 19, 20, 21, 28, len-1, len, "
         "len+1, len+19, len+20} at d <= 1, whole delivery and byte-at-a-time at d <= 1 (thorough: every 1-cut at "
-        "d <= 1, structural 2-cuts at d <= 1, structural 1-cuts at d <= 2); client and server roles. A state = "
+        "d <= 1, structural 2-cuts at d <= 1, structural 1-cuts at d <= 2); the same sequences followed at once by "
+        "the peer's orderly close (whole, byte-at-a-time, 4 cuts at d = 0; two sequences at d <= 1); client and "
+        "server roles. A state = "
         "one executed schedule; deviations = non-default thread choice or a long stall of the running thread")
 ASSUMPTIONS = [
     "scheduling points: every lock/event/queue/selector/socket/sleep operation of the library and every source "
@@ -68,6 +70,8 @@ class Inbound(explore.Scenario):
         def consumer():
             for _ in expect_app:
                 m = n.diameter.get_message()
+                if m is None and self.params.get("then_close"):
+                    break            # the connection has ended: nothing more will come
                 obs["got"].append(m.dump().hex() if m is not None else None)
 
         def peer():
@@ -80,6 +84,9 @@ class Inbound(explore.Scenario):
                 n.peer.send(piece)
                 # the next chunk becomes available only after the node has read this one (a slow sender)
                 n.peer.wait_for(lambda: not n.peer.conn.inbox, "chunk-read", timeout=20.0)
+            if self.params.get("then_close"):
+                # the peer ends the connection (orderly FIN) right behind its last message
+                n.peer.close()
 
         rt.begin_exploration()
         ct = T(target=consumer, name="app-consumer")
@@ -159,8 +166,11 @@ def plan(tier):
     seqs3 = [["req", "dwr", "ans"], ["req", "req", "req"]]
     thorough = tier == "thorough"
 
-    def P(kinds, cuts, role, cutsig):
-        return dict(kinds=kinds, cuts=cuts, role=role, cutsig=cutsig)
+    def P(kinds, cuts, role, cutsig, then_close=False):
+        d = dict(kinds=kinds, cuts=cuts, role=role, cutsig=cutsig)
+        if then_close:
+            d["then_close"] = True
+        return d
 
     # -- d = 0: the complete segmentation space ------------------------------------------------------------
     for role in ("server", "client"):
@@ -177,6 +187,21 @@ def plan(tier):
                 for i, a in enumerate(sc):
                     for b2 in sc[i + 1:]:
                         yield P(kinds, [a, b2], role, "2cut"), 0
+    # -- the peer closes the connection right behind its last message (what was sent is still delivered) ------
+    for role in ("server", "client"):
+        for kinds in seqs1 + seqs2 + (seqs3 if thorough else []):
+            yield P(kinds, [], role, "whole+fin", True), 0
+            yield P(kinds, "bytes", role, "bytewise+fin", True), 0
+            first = len(build_sequence(kinds)[0])
+            for c in (3, 20, first - 1, first + 1):
+                yield P(kinds, [c], role, "1cut+fin", True), 0
+    yield P(["req", "req"], [], "server", "whole+fin", True), 1
+    yield P(["dwr", "req"], [], "client", "whole+fin", True), 1
+    if thorough:
+        yield P(["req"], [20], "server", "1cut+fin", True), 1
+        yield P(["req", "req"], [], "client", "whole+fin", True), 1
+        yield P(["req", "dwr"], [], "server", "whole+fin", True), 1
+        yield P(["req"], [], "server", "whole+fin", True), 2
     # -- d = 1 -----------------------------------------------------------------------------------------------
     one = [(["req"], [], "server", "whole"), (["req"], [20], "server", "1cut"),
            (["req", "req"], [len(build_sequence(["req"])[0])], "server", "1cut"),
